@@ -34,6 +34,9 @@ func WriteAccumulator(w CSV, aggr *aggregation.AccumulatingGroup) error {
 
 	row := make([]string, aggr.ColCount())
 	for _, group := range aggr.Groups(sorting.ByName) {
+		for i := 0; i < aggr.GroupColCount(); i++ {
+			row[i] = "" // an empty group key has no parts to overwrite the previous row with
+		}
 		copy(row, group.Parts())
 		copy(row[aggr.GroupColCount():], aggr.DataNoCopy(group))
 		if err := w.Write(row); err != nil {
